@@ -61,7 +61,7 @@ func TestC08(t *testing.T) {
 			r.Violate("C08/auth-payload-in-clear", "the handshake transcript contains the auth payload in clear", kk)
 		}
 		m := [2]*mailbox.Machine{cli.Machine, srv.Machine}
-		uses := [2]int{}     // cipher uses per direction (dir 0: client->server)
+		uses := [2]int{}      // cipher uses per direction (dir 0: client->server)
 		epochs := [2][2]int{} // [dir][0 = sender, 1 = receiver] key changes seen
 		fp := [2][2][32]byte{}
 		for d := 0; d < 2; d++ {
